@@ -23,7 +23,11 @@ requests fields                                -> the theory flag names, in orde
          features <wire term>                  -> <T> q|qf   (specification: features the term uses)
          detect <wire term>                    -> ok <name> <qf> <T> | err <class>   (oracles.get_logic, modelled)
          fragment <wire term>                  -> true|false   (hypothesis `inFragment` of detect_covers_partial)
+         isdl <wire term>                      -> <bool> <bool>   (Spec: in integer / real difference logic)
          sorted <wire term>                    -> true|false   (hypotheses of detect_covers: well-sorted by Spec.HasType, no pow)
+         scriptlogic <wire term>               -> ok … | err …   (set-logic of smtlibscript_from_formula, modelled)
+         factory <default L> <name|-> <logic L|-> <np> <pref>* <ns> (<solver name> <nl> <L>*)*
+                                               -> ok <solver name> <name> <qf> <T> | err <class>   (Factory._get_solver_class)
 anything else -> bad-op
 -/
 import PySMT.Gen.Logics
@@ -31,6 +35,7 @@ import PySMT.Spec.LogicOrder
 import PySMT.Spec.Features
 import PySMT.Spec.HasType
 import PySMT.Impl.TheoryOracle
+import PySMT.Impl.FactorySelect
 import PySMT.Core.DriverLib
 open PySMT.Logics
 open PySMT PySMT.Wire
@@ -94,17 +99,61 @@ def termAnswer (line : String) : Option String :=
       let t ← term
       return showT (Features.features t) ++ (if Features.hasQuant t then " q" else " qf")) toks
   | some "detect" => some <| DriverLib.handle (do let t ← term; return showR (TheoryOracle.getLogic t)) toks
+  | some "scriptlogic" => some <| DriverLib.handle (do let t ← term; return showR (FactorySelect.scriptLogic t)) toks
+  | some "isdl" => some <| DriverLib.handle (do
+      let t ← term; return tf (Features.isDL .int t) ++ " " ++ tf (Features.isDL .real t)) toks
   | some "sorted" => some <| DriverLib.handle (do
       let t ← term; return tf (t.sortOf.isSome && Features.noPow t)) toks
   | some "fragment" => some <| DriverLib.handle (do let t ← term; return tf (Features.inFragment t)) toks
   | _ => none
+
+/-- `<ns> (<name> <nl> <logic>*)*` -/
+partial def readSolvers : Nat → List String → Option (List FactorySelect.SolverClass)
+  | 0, [] => some []
+  | 0, _ => none
+  | k + 1, name :: nl :: rest =>
+    match nl.toNat? with
+    | some m =>
+      if rest.length < m then none else
+      match (rest.take m).mapM readL, readSolvers k (rest.drop m) with
+      | some ls, some more => some (⟨name, ls⟩ :: more)
+      | _, _ => none
+    | none => none
+  | _, _ => none
+
+def factoryAnswer : List String → String
+  | d :: n :: g :: np :: rest =>
+    match readL d, np.toNat? with
+    | some dl, some k =>
+      if rest.length < k + 1 then "bad-op" else
+      let prefs := rest.take k
+      match (rest.drop k) with
+      | ns :: srest =>
+        (match ns.toNat?.bind (fun m => readSolvers m srest) with
+         | some sl =>
+           let name := if n == "-" then none else some n
+           let logic := if g == "-" then some none else (readL g).map some
+           (match logic with
+            | some lg =>
+              (match FactorySelect.getSolverClass sl prefs dl name lg with
+               | .ok (s, l) => s!"ok {s.name} {showL l}"
+               | .error .NoSolverAvailableError => "err NoSolverAvailableError"
+               | .error .NoLogicAvailableError => "err NoLogicAvailableError"
+               | .error .IndexError => "err IndexError"
+               | .error .UndefinedLogicError => "err UndefinedLogicError")
+            | none => "bad-op")
+         | none => "bad-op")
+      | [] => "bad-op"
+    | _, _ => "bad-op"
+  | _ => "bad-op"
 
 def answer (all : Array Theory) (line : String) : String :=
   match termAnswer line with
   | some a => a
   | none =>
   match line.splitOn " " with
-  | ["caps"] => "theory features detect fragment sorted"
+  | "factory" :: rest => factoryAnswer rest
+  | ["caps"] => "theory features detect fragment sorted isdl scriptlogic factory"
   | ["le", a, b] => rel2 Logic.le a b
   | ["lt", a, b] => rel2 Logic.lt a b
   | ["ge", a, b] => rel2 Logic.ge a b
